@@ -60,39 +60,8 @@ def cases(draw, tier="quick"):
             "seed": draw(st.integers(0, 2 ** 31))}
 
 
-SCOPE_SHAPES = [
-    ("gapless_from_0", "u8", [0, 1, 2]),
-    ("gapless_negative_start", "i8", [-2, -1, 0, 1]),
-    ("holes_mixed_sign", "i16", [-5, -4, 3, 9, 10]),
-    ("holes_at_type_limits", "i8", [-128, -127, 5, 127]),
-    ("single_variant", "u32", [7]),
-    ("gapless_at_type_max", "u8", [253, 254, 255]),
-    ("holes_wide_repr", "u64", [0, 1, 2 ** 40]),
-    ("holes_9_values_usize", "usize", [0, 1, 2, 3, 4, 5, 6, 7, 9]),
-]
-
-
-def scope_configs(max_size, gapless):
-    """Every feature subset of size <= max_size (range pulls in iter) x every mode of the mode features present."""
-    str_modes = [None, "match", "table"]
-    out = []
-    for k in range(1, max_size + 1):
-        for sub in itertools.combinations(E.ALL_FEATURES, k):
-            fs = list(sub)
-            if "range" in fs and "iter" not in fs:
-                fs.append("iter")
-            doms = []
-            for f in fs:
-                if f == "iter":
-                    md = [None, "next_and_back", "table"] + (["range"] if gapless else []) + ([] if "range" in fs else ["table_inline"])
-                    doms.append(md)
-                elif f in E.MODE_FEATURES:
-                    doms.append(str_modes)
-                else:
-                    doms.append([None])
-            for combo in itertools.product(*doms):
-                out.append(S.simple_config(fs, {f: m_ for f, m_ in zip(fs, combo)}))
-    return out
+SCOPE_SHAPES = C.SCOPE_SHAPES
+scope_configs = C.scope_configs
 
 
 def fixed_cases(tier):
@@ -155,24 +124,7 @@ def _total_pairs():
 COVER_TOTALS = {"pairs_x_shape": _total_pairs()}   # upper bound: includes the few illegal pairs (range x iter off / table_inline, range mode x holes)
 
 
-def _batch_src(items):
-    parts = [E.HEADER]
-    for i, item in items:
-        parts.append("pub mod m%d {\n    use ::enum_tools::EnumTools;\n%s\n}" % (i, item))
-    return "\n".join(parts) + "\n"
-
-
-def _failing(items):
-    """Indices of items that do not compile (batched check-only compile, bisecting failing batches)."""
-    if not items:
-        return []
-    c = build.rustc(_batch_src(items), mode="check", crate_name="scope")
-    if c.ok:
-        return []
-    if len(items) == 1:
-        return [(items[0][0], J.short_err(c.stderr, 600))]
-    mid = len(items) // 2
-    return _failing(items[:mid]) + _failing(items[mid:])
+_failing = C.failing_items
 
 
 def run_small_scope(case):
